@@ -183,19 +183,64 @@ func c14Drain(e *Env) {
 			return true
 		})
 		okPast, okWithin := false, false
-		for _, a := range asgs {
-			be, ok := unparen(a.cond).(*ast.BinaryExpr)
-			if !ok || usedVar(info, be.X) != off || (be.Op != token.GTR && be.Op != token.GEQ) {
-				continue
+		// pastPrefetch: does the branch mean "offset is beyond the prefetched size"? The
+		// comparison may be written either way round, negated, or with the branches swapped.
+		pastPrefetch := func(cond ast.Expr, then bool) (past bool, pv *types.Var, ok bool) {
+			neg := !then
+			c := unparen(cond)
+			for {
+				u, isU := c.(*ast.UnaryExpr)
+				if !isU || u.Op != token.NOT {
+					break
+				}
+				neg = !neg
+				c = unparen(u.X)
 			}
-			pv := usedVar(info, be.Y)
+			be, isB := c.(*ast.BinaryExpr)
+			if !isB {
+				return
+			}
+			x, y, op := be.X, be.Y, be.Op
+			if usedVar(info, y) == off { // pv OP off  ≡  off OP' pv
+				x, y = y, x
+				switch op {
+				case token.LSS:
+					op = token.GTR
+				case token.LEQ:
+					op = token.GEQ
+				case token.GTR:
+					op = token.LSS
+				case token.GEQ:
+					op = token.LEQ
+				}
+			}
+			if usedVar(info, x) != off {
+				return
+			}
+			pv = usedVar(info, y)
 			if pv == nil {
+				return
+			}
+			switch op {
+			case token.GTR, token.GEQ:
+				return !neg, pv, true
+			case token.LSS, token.LEQ:
+				return neg, pv, true
+			}
+			return
+		}
+		for _, a := range asgs {
+			if a.cond == nil {
 				continue
 			}
-			if a.then && linIs(a.lf, map[types.Object]int{cl: 1, off: -1}, 0) {
+			past, pv, ok := pastPrefetch(a.cond, a.then)
+			if !ok {
+				continue
+			}
+			if past && linIs(a.lf, map[types.Object]int{cl: 1, off: -1}, 0) {
 				okPast = true
 			}
-			if !a.then && linIs(a.lf, map[types.Object]int{cl: 1, pv: -1}, 0) {
+			if !past && linIs(a.lf, map[types.Object]int{cl: 1, pv: -1}, 0) {
 				okWithin = true
 			}
 		}
